@@ -10,9 +10,8 @@ NOTES = {
               'exclusive-ownership and no-data-race, confirmed natively under the race detector).'),
     'C11-D': (None, 'Out of the model: the defect needs a garbage collection that runs a finalizer; finalizers and the collector are not '
               'encoded (runtime.SetFinalizer is reported as INCONCLUSIVE).'),
-    'C05-F': (None, 'Out of the bounds: needs >= 65536 samples and goroutines started inside the library (runtime.GOMAXPROCS, go statements); '
-              'the checks stop at 4100 samples and report the path as INCONCLUSIVE.'),
-    'C11-F': (None, 'Out of the bounds: needs >= 65536 samples and goroutines started inside the library; reported as INCONCLUSIVE (runtime.GOMAXPROCS).'),
+    'C05-F': (None, 'Out of the bounds: needs >= 65536 samples and goroutines started inside the library; the checks stop at 4100 samples (the path with the defect is never entered).'),
+    'C11-F': (None, 'Out of the bounds: needs >= 65536 samples and goroutines started inside the library; the checks stop at 4100 samples.'),
     'C19-E': (None, 'Out of the bounds: the parallel path starts at 32768 samples and uses goroutines started inside the library.'),
     'C18-E': (None, 'Out of reach of the technique: the allocation is introduced by the compiler escape analysis in the caller (stack-backed '
               'destination slices reached through a function value); no allocating instruction exists at SSA level. Stated limit of C18.'),
